@@ -55,20 +55,26 @@ DepFuns(cod) ==
          IN  {[g \in DOMAIN cod |-> IF g = f THEN x ELSE h[g]] : h \in DepFuns(rest), x \in cod[f]}
 
 FieldIdx(f) == CHOOSE i \in 1..Len(B!Fields(Ty)) : B!Fields(Ty)[i] = f
+\* a stored scalar: a rational, or (nested types) an inner number with that real part and small integer parts
+IntVals == << <<1, 1>>, <<-2, 1>>, <<3, 1>>, <<-1, 1>>, <<2, 1>>, <<-3, 1>> >>
+InnerIdx(f) == CHOOSE i \in 1..Len(I!Fields(Inner)) : I!Fields(Inner)[i] = f
+Lift(q, k) == IF IsF THEN q
+              ELSE [f \in {"re"} \cup I!FieldSet(Inner) |->
+                        IF f = "re" THEN q ELSE IntVals[((k + 3 * InnerIdx(f)) % Len(IntVals)) + 1]]
 \* selection by the random numbers held in the state
 NRnd == 60
 RandVec(t) == [i \in 1..NRnd |-> RandomElement(0..(99999 + t - t))]
 PickS(S, i) == LET q == SetToSeq(S) IN q[(rnd[i] % Len(q)) + 1]
 RandValue ==
     [f \in {"re"} \cup B!FieldSet(Ty) |->
-        IF f = "re" THEN PickS(ReGrid, 11)
+        IF f = "re" THEN Lift(PickS(ReGrid, 11), rnd[12])
         ELSE LET fi == FieldIdx(f) IN
              IF B!IsVec(Ty)
              THEN LET d == B!PartDims(Ty, f)
                   IN  IF rnd[11 + fi] % 4 = 0 THEN B!None
                       ELSE B!Some([i \in 1..d[1] |-> [j \in 1..d[2] |->
-                                      PickS(PartGrid, 20 + ((7 * fi + 3 * i + j) % 40))]])
-             ELSE PickS(PartGrid, 20 + fi)]
+                                      Lift(PickS(PartGrid, 20 + ((7 * fi + 3 * i + j) % 40)), rnd[13] + i + j)]])
+             ELSE Lift(PickS(PartGrid, 20 + fi), rnd[14] + fi)]
 
 ---------------------------------------------------------------------------
 Init == /\ regs = [r \in Regs |-> B!ZeroB(Ty)]
@@ -166,7 +172,7 @@ SpecSim == Init /\ [][SimStep]_vars
 (* emission of behaviours (spec -> implementation) *)
 Emit ==
     Len(hist) = Depth =>
-        PrintT(<<"BEH", ToJson([ty |-> Ty, mant |-> Mant, nr |-> NR, events |-> hist])>>)
+        PrintT(<<"BEH", ToJson([ty |-> (IF IsF THEN Ty ELSE Ty @@ [inner |-> Inner]), mant |-> Mant, nr |-> NR, events |-> hist])>>)
 
 \* history is hidden from the fingerprint except for its last event, so every
 \* distinct transition is reached (and emitted) but paths are not multiplied
@@ -259,8 +265,10 @@ SmallVals == IF Mant >= 53
              THEN << <<1, 1>>, <<-2, 1>>, <<3, 1>>, <<-1, 2>>, <<2, 1>>, <<-3, 1>>, <<3, 2>>, <<-1, 1>>,
                      <<1, 2>>, <<-3, 2>> >>
              ELSE << <<1, 1>>, <<-2, 1>>, <<3, 1>>, <<-1, 1>>, <<2, 1>>, <<-3, 1>> >>
-GenScalar(k) == SmallVals[(k % Len(SmallVals)) + 1]
-GenValue(k, pres, re) ==
+GenQ(k) == IF IsF THEN SmallVals[(k % Len(SmallVals)) + 1] ELSE IntVals[(k % Len(IntVals)) + 1]
+GenScalar(k) == Lift(GenQ(k), k)
+GenValue(k, pres, re0) ==
+    LET re == Lift(re0, k + 1) IN
     [f \in {"re"} \cup B!FieldSet(Ty) |->
         IF f = "re" THEN re
         ELSE IF B!IsVec(Ty)
@@ -275,6 +283,12 @@ LoadSetQuick ==
     {GenValue(1, p, <<2, 1>>) : p \in PresSet}
     \cup {GenValue(3, [f \in B!FieldSet(Ty) |-> TRUE], <<2, 1>>)}   \* same real part, other parts
     \cup {GenValue(4, [f \in B!FieldSet(Ty) |-> TRUE], IF Mant >= 53 THEN <<-1, 2>> ELSE <<-1, 1>>)}
+    \cup {GenValue(2, [f \in B!FieldSet(Ty) |-> TRUE], r) : r \in {<<0, 1>>, <<1, 1>>, <<4, 1>>}}
+\* nested types: integers only (the degree of a nested operation leaves room for two bits per operand scalar)
+LoadSetNested ==
+    {GenValue(1, p, <<2, 1>>) : p \in PresSet}
+    \cup {GenValue(3, [f \in B!FieldSet(Ty) |-> TRUE], <<2, 1>>)}
+    \cup {GenValue(4, [f \in B!FieldSet(Ty) |-> TRUE], <<-1, 1>>)}
     \cup {GenValue(2, [f \in B!FieldSet(Ty) |-> TRUE], r) : r \in {<<0, 1>>, <<1, 1>>, <<4, 1>>}}
 LoadSetGeneric ==
     {GenValue(1, p, <<2, 1>>) : p \in PresSet}
